@@ -388,15 +388,15 @@ Definition cache_stage1 (c : cache) (gw : option (list Z)) (r : request) : reque
 Definition cache_stage (c : cache) (gw : option (list Z)) (rs : list request) : list request :=
   map (cache_stage1 c gw) rs.
 
-(* getGatewayMAC: the --gwmac flag, else the cache entry of the default gateway's address
-   (route lookup = oracle input: None when it fails) *)
-Definition gateway_mac (flag : option (list Z)) (gw_ip : option (list Z)) (c : cache) : option (option (list Z)) :=
+(* getGatewayMAC: the --gwmac flag, else the cache entry of the default gateway's address.  The
+   route lookup is an oracle input: [route_err] = netlink failed; [gw_ip] = the 4-byte gateway
+   address, [] when the interface has no default route (Get(nil) then finds nothing).
+   None = error, Some None = no gateway MAC known. *)
+Definition gateway_mac (flag : option (list Z)) (route_err : bool) (gw_ip : list Z) (c : cache)
+  : option (option (list Z)) :=
   match flag with
   | Some m => Some (Some m)
-  | None => match gw_ip with
-            | None => None
-            | Some ip => Some (cache_get c ip)
-            end
+  | None => if route_err then None else Some (cache_get c gw_ip)
   end.
 
 Definition is_ipv4 (ip : list Z) : bool :=
